@@ -141,7 +141,7 @@ func genCase(r *fw.Rand) fw.Case {
 // and its reaction to finding nothing there (`psendmid`), around segment roll-overs.
 func genProcCase(r *fw.Rand) fw.Case {
 	maxSeg := []int{64, 100, 200, 400}[r.Intn(4)]
-	ops := []string{fmt.Sprintf("reset %d 100000", maxSeg)}
+	ops := []string{fmt.Sprintf("reset %d 100000 hinted", maxSeg)}
 	id := 0
 	blk := func() (int, int) {
 		id++
@@ -209,9 +209,9 @@ func (Prop) Generate(r *fw.Rand, tier string) []fw.Case {
 // id's digits) is a well-formed hinted write as `unmarshalWrite` reads it — 8-byte shard id
 // (zero), one point: 4-byte length and the bytes (the id's digits, then padding) — so that the
 // node processor can send it; a shorter one is the digits and padding alone.
-func payload(id, l int) []byte {
+func payload(id, l int, hinted bool) []byte {
 	ds := []byte(strconv.Itoa(id))
-	if l >= 12+len(ds) {
+	if hinted && l >= 12+len(ds) {
 		b := make([]byte, 12, l)
 		binary.BigEndian.PutUint32(b[8:12], uint32(l-12))
 		b = append(b, ds...)
@@ -246,6 +246,7 @@ type impl struct {
 	proc    *hh.NodeProcessor
 	w       *recWriter
 	maxSeg  int
+	hinted  bool // blocks are well-formed hinted writes (node processor cases)
 	maxSize int
 	crashes int
 	olddirs []string
@@ -407,8 +408,13 @@ func (m *impl) step(op string) (out string) {
 		os.RemoveAll(m.dir)
 		os.MkdirAll(m.dir, 0o755)
 		m.maxSeg, m.maxSize = 1024, 100000
-		if len(f) == 3 {
+		m.hinted = false
+		if len(f) >= 3 {
 			m.maxSeg, m.maxSize = atoi(f[1]), atoi(f[2])
+			// the node processor's cases need blocks it can decode (a hinted write has a
+			// length field of its own inside); the queue's own cases use plain blocks, so
+			// that no offset inside a block looks like the start of a record
+			m.hinted = len(f) > 3 && f[3] == "hinted"
 		}
 		// the queue of a node processor whose background sender is not running: `psend` ops
 		// drive NodeProcessor.SendWrite step by step, every other op goes to the queue itself
@@ -425,7 +431,7 @@ func (m *impl) step(op string) (out string) {
 			// the crash interrupts the flush of one more block (never acknowledged): of the
 			// bytes that flush writes over the footer of the newest segment — length, block,
 			// new footer — only the first k reach the file
-			if err := tearFlush(img, payload(atoi(f[2]), atoi(f[3])), atoi(f[4])); err != nil {
+			if err := tearFlush(img, payload(atoi(f[2]), atoi(f[3]), m.hinted), atoi(f[4])); err != nil {
 				return "err:tear"
 			}
 		}
@@ -438,7 +444,7 @@ func (m *impl) step(op string) (out string) {
 		if f[3] == "1" {
 			release = m.q.HoldTokens(9)
 		}
-		err := m.q.Append(payload(atoi(f[1]), atoi(f[2])))
+		err := m.q.Append(payload(atoi(f[1]), atoi(f[2]), m.hinted))
 		if release != nil {
 			release()
 		}
@@ -453,7 +459,7 @@ func (m *impl) step(op string) (out string) {
 		if f[0] == "psendmid" {
 			id, l := atoi(f[1]), atoi(f[2])
 			midMu.Lock()
-			midFn = func() { mid = errName(m.q.Append(payload(id, l))) }
+			midFn = func() { mid = errName(m.q.Append(payload(id, l, m.hinted))) }
 			midMu.Unlock()
 		}
 		n, err := m.proc.SendWrite()
@@ -713,6 +719,9 @@ func (Prop) Oracle(c fw.Case, out []string) fw.Verdict {
 					return fw.Verdict{OK: false, Why: fmt.Sprintf("op %d: current returned block %d but block %d is older and still pending", i, id, pending[0]), Signature: "block delivered out of order / older block skipped"}
 				}
 				if idx > 0 {
+					for _, g := range pending[:idx] {
+						delivered[g] = true // purged by age, or consumed by a bare Advance after a purge: a torn crash may bring the latter back
+					}
 					pending = pending[idx:] // the older ones were purged by age
 				}
 				lastCurrent = id
